@@ -318,6 +318,9 @@ public:
    {
       if (m.what == PR_COMMAND_SETDATA)
       {
+         // (a SETDATA names nodes below its sender's own root, and every path below a hostile session's root is "don't care" already -- hostileOwned() in
+         //  CheckAtQuiescence() -- so nothing needs recording for it; recording every prefix of its 70000-level paths cost gigabytes and seconds for nothing)
+         if (c->hostile) return;
          SetDataNodeFlags flags; (void) m.FindFlat<SetDataNodeFlags>(PR_NAME_FLAGS, flags);
          const bool quiet = flags.IsBitSet(SETDATANODE_FLAG_QUIET);
          for (MessageFieldNameIterator it = m.GetFieldNameIterator(B_MESSAGE_TYPE); it.HasData(); it++)
